@@ -339,6 +339,8 @@ def run_copula_coupling(tid, kind, grid, atoms, d, method, sigmas, a_us, maxlvl)
         model = atomic.atom_copula_model(atoms, d, drifts=[x * U for x in a_us])
         for m, sg in zip(model.models, sigmas):
             m.levy_triplet.sigma = sg * U
+        # the process does not start at zero (the coarse component's drift is a slope, not a value at time 1)
+        model.x0s = np.array([[(3 + k) * U] for k in range(d)]) if np.ndim(model.x0s) == 2 else np.array([(3 + k) * U for k in range(d)])
         cp = CouplingProcessLevyCopula(levy_copula_model=model, grid=grid, method=method)
         uni = OneUniform()
         if not hasattr(cp, "_uniform"):
